@@ -6,6 +6,7 @@ Every model here is part of the trusted base (DESIGN.md §4) and is listed in th
 from __future__ import annotations
 
 import ast
+import os
 
 import z3
 
@@ -114,29 +115,117 @@ class Builtins:
         return f(s, n)
 
     # ------------------------------------------------------------------ floats (reals with relative error)
-    def round_real(self, st, exact):
-        """IEEE-754 double rounding of an exact real result: exact * (1 + e), |e| <= 2^-53."""
+    def round_real(self, st, exact, bound=None):
+        """IEEE-754 double rounding of an exact real result x: x*(1+e), |e| <= 2^-53. When a magnitude
+        bound |x| <= B is known the (weaker, linear) absolute form |r - x| <= 2^-53 * B is used instead."""
+        self.eng.used_assumptions.add("float ops modelled as the exact real result with relative rounding error |e| <= 2^-53 "
+                                      "(operands and results normal doubles, magnitude < 2^53)")
+        if bound is not None:
+            r = st.fresh("fr", z3.RealSort())
+            d = EPS * z3.RealVal(bound)
+            st.assume(z3.And(r >= exact - d, r <= exact + d))
+            # ladder: the error is relative, so small results carry proportionally smaller errors
+            for sh in [int(x) for x in os.environ.get('PYVC_LADDER', '').split(',') if x]:
+                lvl = z3.RealVal(1) / z3.RealVal(2 ** sh)
+                st.assume(z3.Implies(z3.And(exact <= lvl, exact >= -lvl),
+                                     z3.And(r >= exact - EPS * lvl, r <= exact + EPS * lvl)))
+            v = VReal(r)
+            v.bound = bound + 1
+            return v
         e = st.fresh("fe", z3.RealSort())
         st.assume(z3.And(e >= -EPS, e <= EPS))
-        self.eng.used_assumptions.add("float ops modelled as exact real result times (1+e), |e| <= 2^-53 "
-                                      "(operands and results normal doubles, magnitude < 2^53)")
-        return exact * (1 + e)
+        v = VReal(exact * (1 + e))
+        v.bound = None
+        return v
+
+    def _bound_of(self, v):
+        if isinstance(v, VReal):
+            b = getattr(v, "bound", None)
+            if b is None and z3.is_rational_value(z3.simplify(v.t)):
+                fr = z3.simplify(v.t).as_fraction()
+                return abs(fr.numerator // fr.denominator) + 1
+            return b
+        if isinstance(v, VInt):
+            t = z3.simplify(v.t)
+            if z3.is_int_value(t):
+                return abs(t.as_long())
+        return None
+
+    def fdiv_fn(self):
+        """Exact real quotient of two integers as an uninterpreted function with (sound) field/order axioms;
+        keeps the verification conditions linear. The defining equation fdiv(x,y)*y == x is only used when
+        searching counter-models."""
+        f = z3.Function("fdiv", z3.IntSort(), z3.IntSort(), z3.RealSort())
+        if not getattr(self, "_fdiv_ax", False):
+            self._fdiv_ax = True
+            a, b, t = z3.Ints("fda! fdb! fdt!")
+            ax = self.eng.axioms
+            ax.append(z3.ForAll([a, t], z3.Implies(z3.And(t > 0, a >= 0, a <= t), z3.And(f(a, t) >= 0, f(a, t) <= 1)),
+                                patterns=[f(a, t)]), keys={"fdiv"})
+            ax.append(z3.ForAll([a, b, t], z3.Implies(t != 0, f(a, t) + f(b, t) == f(a + b, t)),
+                                patterns=[z3.MultiPattern(f(a, t), f(b, t))]), keys={"fdiv"})
+            ax.append(z3.ForAll([t], z3.Implies(t != 0, f(t, t) == 1), patterns=[f(t, t)]), keys={"fdiv"})
+            ax.append(z3.ForAll([t], z3.Implies(t != 0, f(0, t) == 0), patterns=[f(0, t)]), keys={"fdiv"})
+            ax.append(z3.ForAll([a, b, t], z3.Implies(z3.And(t > 0, a <= b), f(a, t) <= f(b, t)),
+                                patterns=[z3.MultiPattern(f(a, t), f(b, t))]), keys={"fdiv"})
+            # integrality gap (proved as lemma:C19::fdiv-gap by z3 in nonlinear arithmetic on every C19 run)
+            gap = z3.RealVal(1) / 100000 + z3.RealVal(1) / (100000 * 2 ** 40)
+            ax.append(z3.ForAll([a, t], z3.Implies(z3.And(t > 0, t < 2 ** 40, 100000 * a > t), f(a, t) >= gap),
+                                patterns=[f(a, t)]), keys={"fdiv"})
+            self.eng.used_assumptions.add("exact real division a/t modelled by an uninterpreted function with the axioms: "
+                                          "0<=a<=t => 0<=a/t<=1; a/t+b/t=(a+b)/t; t/t=1; 0/t=0; monotone in a for t>0")
+        return f
 
     def float_div(self, st, x, y):
-        return VReal(self.round_real(st, z3.ToReal(x) / z3.ToReal(y)))
+        """int / int: the exact quotient, then one rounding (no rounding inside specifications)."""
+        f = self.fdiv_fn()
+        xs, ys = z3.simplify(x, som=True), z3.simplify(y, som=True)
+        q = f(xs, ys)
+        # eager ground instances of the additivity axiom among quotients with the same denominator
+        reg = dict(st.ghost.get("fdiv", {}))
+        nums = list(reg.get(ys.get_id(), []))
+        if not any(n.eq(xs) for n in nums):
+            for b in nums[:8]:
+                sm = z3.simplify(xs + b, som=True)
+                st.assume(z3.Implies(ys != 0, q + f(b, ys) == f(sm, ys)))
+                if sm.eq(ys):
+                    st.assume(z3.Implies(ys != 0, f(sm, ys) == 1))
+            nums.append(xs)
+            reg[ys.get_id()] = nums
+            st.ghost = dict(st.ghost)
+            st.ghost["fdiv"] = reg
+        if st.spec_mode:
+            v = VReal(q)
+            v.bound = None
+            return v
+        bound = None
+        if self.eng.quick_sat(st.pc, z3.Not(z3.And(y > 0, x >= 0, x <= y))) == "unsat":
+            bound = 1
+            st.assume(z3.And(q >= 0, q <= 1))
+        return self.round_real(st, q, bound)
 
     def float_binop(self, st, op, a, b, node):
         eng = self.eng
         x, y = eng.as_real(a), eng.as_real(b)
+        if st.spec_mode:
+            # specifications speak about exact real arithmetic
+            if isinstance(op, ast.Add):
+                return VReal(x + y)
+            if isinstance(op, ast.Sub):
+                return VReal(x - y)
+            if isinstance(op, ast.Mult):
+                return VReal(x * y)
+            raise E.Unsupported("real division by a real in a specification", node)
+        ba, bb = self._bound_of(a), self._bound_of(b)
         if isinstance(op, ast.Add):
-            return VReal(self.round_real(st, x + y))
+            return self.round_real(st, x + y, (ba + bb) if ba is not None and bb is not None else None)
         if isinstance(op, ast.Sub):
-            return VReal(self.round_real(st, x - y))
+            return self.round_real(st, x - y, (ba + bb) if ba is not None and bb is not None else None)
         if isinstance(op, ast.Mult):
-            return VReal(self.round_real(st, x * y))
+            return self.round_real(st, x * y, (ba * bb) if ba is not None and bb is not None else None)
         if isinstance(op, ast.Div):
             eng.require(st, y != 0, "ZeroDivisionError", node, "float division")
-            return VReal(self.round_real(st, x / y))
+            return self.round_real(st, x / y, None)
         raise E.Unsupported("float op", node)
 
     # ------------------------------------------------------------------ lines as an abstract order (C04-E)
@@ -580,10 +669,35 @@ class Builtins:
         if isinstance(v, VList) and v.elem.kind == "int":
             n = eng.list_len(st, v)
             arr = z3.Select(st.eltmap(z3.IntSort()), v.ref)
+            c = self.const_len(st, n)
+            if c is not None:
+                t = z3.IntVal(0)
+                for k in range(c):
+                    t = t + z3.Select(arr, k)
+                return VInt(t)
             return VInt(self.sum_sym(st, arr, n, None, None, TInt))
         if isinstance(v, VComp):
             return VInt(self.sum_sym(st, v.arr, v.n, v.map_fn, v.pred_fn, v.src_elem, v.state))
         raise E.Unsupported(f"sum of {v!r}", node)
+
+    def const_len(self, st, n, limit=16):
+        """If the path condition fixes the length n to a small constant, return it."""
+        ns = z3.simplify(n)
+        if z3.is_int_value(ns):
+            return ns.as_long() if ns.as_long() <= limit else None
+        s = z3.Solver()
+        s.set("timeout", 1000)
+        for a in st.pc:
+            if not z3.is_quantifier(a):
+                s.add(a)
+        if s.check() != z3.sat:
+            return None
+        v = s.model().eval(n, model_completion=True)
+        if not z3.is_int_value(v) or not (0 <= v.as_long() <= limit):
+            return None
+        if self.eng.quick_sat(st.pc, n != v) == "unsat":
+            return v.as_long()
+        return None
 
     def bi_min(self, st, args, kwargs, node):
         return self._minmax(st, args, kwargs, node, True)
